@@ -1,4 +1,5 @@
 import MQ.Inv.EpochRun
+import MQ.Model.Hyp
 /-! # EpochInv holds in every reachable state (under the ownership and mutex hypotheses) -/
 set_option linter.unusedSimpArgs false
 set_option linter.unusedVariables false
@@ -38,8 +39,9 @@ theorem edata_of_ring_mgr {σ σ' : St} (hm : σ'.mgr = σ.mgr) (hr : σ'.ereg =
 /-- ownership hypotheses for the labels that touch the handle table -/
 def ELabelOK (σ : St) : Label → Prop
   | .run x _ => EStepOK σ x
-  | .call t _ g _ ng _ => ∀ u, u ≠ t → (σ.th u).pc ≠ .idle → (σ.th u).g ≠ ng ∧ (σ.th u).g ≠ g
-  | .retn t => ∀ u, u ≠ t → (σ.th u).pc ≠ .idle → (σ.th u).g ≠ (σ.th t).g ∧ (σ.th u).g ≠ (σ.th t).ng
+  | .call t o g _ ng _ => ∀ u, u ≠ t → (σ.th u).pc ≠ .idle → (σ.th u).g ≠ g ∧ (o.creates = true → (σ.th u).g ≠ ng)
+  | .retn t => ∀ u, u ≠ t → (σ.th u).pc ≠ .idle →
+      (σ.th u).g ≠ (σ.th t).g ∧ ((σ.th t).outer.creates = true → (σ.th u).g ≠ (σ.th t).ng)
   | _ => True
 
 theorem callPrep_ereg (σ : St) (t : Nat) (o : Outer) (g v ng ns : Nat) : (callPrep σ t o g v ng ns).ereg = σ.ereg := by
@@ -54,10 +56,11 @@ theorem callEntry_eplain (σ1 : St) (t : Nat) (o : Outer) (g ng ns : Nat) (hp : 
   all_goals simp [St.goto, St.setTh, St.setHd, upd, PC.ePhase, hp]
 
 /-- the token of a handle other than `g` and `ng` is not touched by a call on `g` that creates `ng` -/
-theorem callStep_tok (σ : St) (t : Nat) (o : Outer) (g v ng ns g' : Nat) (h1 : g' ≠ ng) (h2 : g' ≠ g) :
+theorem callStep_tok (σ : St) (t : Nat) (o : Outer) (g v ng ns g' : Nat) (h1 : o.creates = true → g' ≠ ng) (h2 : g' ≠ g) :
     ((callEntry (callPrep σ t o g v ng ns) t o g ng ns).hs g').tok = (σ.hs g').tok := by
   unfold callEntry callPrep; simp only []; repeat' split
-  all_goals simp [St.goto, St.setTh, St.setHd, upd, h1, h2]
+  all_goals simp [St.goto, St.setTh, St.setHd, upd, h2, Outer.creates] at h1 ⊢
+  all_goals simp [h1]
 
 theorem einv_call {σ : St} (t : Nat) (o : Outer) (g v ng ns : Nat) (I : EInv σ)
     (K : ELabelOK σ (.call t o g v ng ns)) : EInv (step σ (.call t o g v ng ns)) := by
@@ -74,7 +77,7 @@ theorem einv_call {σ : St} (t : Nat) (o : Outer) (g v ng ns : Nat) (I : EInv σ
       obtain ⟨k1, k2⟩ := K u hu hi
       unfold tokOf
       rw [hoth u hu]
-      exact callStep_tok σ t o g v ng ns _ k1 k2
+      exact callStep_tok σ t o g v ng ns _ k2 k1
     · exact edata_of (by rw [callEntry_mgr, callPrep_mgr]) (by rw [callEntry_ereg, callPrep_ereg])
     · rw [callEntry_mgr, callPrep_mgr]
     · exact callEntry_eplain _ t o g ng ns (by rw [hpcP, hidle])
@@ -90,7 +93,9 @@ theorem einv_retn {σ : St} (t : Nat) (I : EInv σ) (K : ELabelOK σ (.retn t)) 
       · intro u hu; simp [St.goto, St.flush, St.setTh, St.setHd, upd, hu]
       · intro u hu hi
         obtain ⟨k1, k2⟩ := K u hu hi
-        simp [tokOf, St.goto, St.flush, St.setTh, St.setHd, upd, hu, k1, k2]
+        first
+          | (simp [tokOf, St.goto, St.flush, St.setTh, St.setHd, upd, hu, k1]; done)
+          | (have k3 := k2 (by simp [Outer.creates, *]); simp [tokOf, St.goto, St.flush, St.setTh, St.setHd, upd, hu, k1, k3]; done)
       · simp only [edata_setHd, edata_flush, edata_goto]
       · simp only [mgr_setHd, mgr_flush, mgr_goto]
       · simp [St.goto, St.flush, St.setTh, St.setHd, upd, PC.ePhase]
